@@ -87,6 +87,15 @@ K("C10", "c10_wallet_len65", "c10", ["saito_core::core::consensus::wallet::Walle
 K("C10", "c10_wallet_short_witness", "c10", ["saito_core::core::consensus::wallet::Wallet::deserialize_from_disk"], "every file of length 0..=64",
   expect_fail="c10_wallet_short_witness", covers=0, cbmc_args=MEMCMP)
 
+# Engine-K harnesses written for the thorough tier that do NOT reach a verdict inside the per-process memory cap
+# (14 GB virtual; CBMC aborts, or the harness timeout passes) even at 4 concurrent jobs — measured twice on this
+# machine.  They stay in /verif/kani/src/c10.rs but are not registered: an obligation that cannot be decided is
+# not part of a claim.  The same decoders are decided at EVERY length up to their bounds by the engine-M
+# obligations (c10_m_tx, c10_m_block, c10_m_handshake, c10_m_message).
+K_NOT_REACHED = {"c10_block_len405", "c10_block_len482", "c10_hsr_len142", "c10_hsr_len143", "c10_hsr_urlfield_146", "c10_msg_short_any_tag", "c10_msg_t05_len72", "c10_msg_t07_len00",
+                 "c10_msg_t08_len00", "c10_msg_t10_len117", "c10_msg_t10_len118", "c10_msg_t10_len119", "c10_msg_t11_len72", "c10_msg_t15_len66", "c10_tx_counts_152", "c10_tx_len282", "c10_tx_short"}
+OBLIGATIONS["C10"] = [o for o in OBLIGATIONS["C10"] if o["name"] not in K_NOT_REACHED]
+
 # ============================================================================== C03
 PROPERTY_ASSUMPTIONS["C03"] = [
     "inductive steps: each obligation starts from an arbitrary pre-state inside its size bound and performs one operation (RingItem / BlockRing index updates, utxoset wind/unwind of a transaction); plus the composition of steps by the reorganisation dispatcher (shared with C04)",
@@ -101,6 +110,7 @@ for k_, tiers in [(1, QT), (2, QT), (3, T)]:
 M("C03", "c03_m_ringitem_reorg", [RI + "on_chain_reorganization"], "RingItem with 0..=3 entries, 32-byte symbolic hashes, lc symbolic")
 M("C03", "c03_m_blockring_reorg", [BR + "on_chain_reorganization", RI + "on_chain_reorganization"], "ring of 4 slots holding 2/1/1/1 and 1/2/1/1 entries, every id >= 1, hash, lc, per-slot designation and tip pointer")
 M("C03", "c03_m_blockring_delete", ["BlockRing::delete_block", "RingItem::delete_block"], "ring of 4 slots (2/1/1/1 and 1/1/2/1 entries), ids arbitrary u64 consistent with their slot (so also >= ring size), hashes and designations symbolic", covers=2)
+M("C03", "c03_m_ringitem_delete", ["RingItem::delete_block"], "slots with 1..=3 entries (thorough 4), pairwise different blocks, symbolic ids / 32-byte hashes, every designation, every deleted position; order-insensitive", covers=1)
 M("C03", "c03_m_tx_wind_unwind", ["Transaction::on_chain_reorganization", "Slip::on_chain_reorganization"], "1..=2 inputs x 1..=2 outputs (thorough 0..=3 each), amounts (0 included) and 59-byte keys symbolic, one unrelated utxoset entry; wind and unwind")
 M("C03", "c03_unwind_full_before_revert", ["Blockchain::validate", "Blockchain::wind_chain", "Blockchain::unwind_chain"], "segments (2,1) and (3,2), every validity pattern; event order on every path", covers=2)
 M("C03", "c03_m_block_reorg_step", ["Block::on_chain_reorganization"], "blocks of 0..=2 transactions, flag and previous flag symbolic: flag stored, every transaction applied/reverted with it", covers=1)
@@ -184,6 +194,7 @@ M("C13", "c13_validate_rebroadcast_gate", [BVX], "every path returning true with
 M("C13", "c13_generate_commits_every_atr", ["saito_core::core::consensus::block::Block::generate (second sweep)"], "blocks of 1..=2 transactions with 2 outputs each, every transaction type and output slip type symbolic", covers=2)
 M("C01", "c01_generate_commits_every_atr", ["saito_core::core::consensus::block::Block::generate (second sweep)"], "same as c13_generate_commits_every_atr: the privileged ATR type cannot bypass the commitment", covers=2)
 M("C01", "c01_unwind_full_before_revert", ["Blockchain::unwind_chain (async body)", "Blockchain::wind_chain"], "same as c03_unwind_full_before_revert: event order on every path, |new| 1..=2, |old| 0..=1", covers=2)
+M("C01", "c01_ledger_check_switch", ["Blockchain::has_total_supply_loaded", "Blockchain::wind_chain (async body)"], "tip height, genesis period symbolic u64, index content an arbitrary predicate over heights (uninterpreted function); wind_chain: every path of one step on a 2+1 segment", covers=2)
 M("C02", "c02_generate_commits_every_atr", ["saito_core::core::consensus::block::Block::generate (second sweep)"], "same as c13_generate_commits_every_atr: the ATR type, exempt from the no-mint comparison, cannot bypass the commitment", covers=2)
 M("C13", "c13_pruned_block_selection", ["Block::generate_consensus_values (async body, up to the point where the block leaving the window is loaded)"], "block id and genesis period symbolic; parent block not indexed (its arithmetic is independent and skipped)", covers=1)
 M("C13", "c13_nft_group_not_split", ["Block::generate_consensus_values (async body, rebroadcast section: collection pass and regrouping pass)"], "block loaded from disk a symbolic input: one transaction with outputs [Bound, payload of any non-Bound type, Bound], all unspent; amounts within the supply; parent not indexed (multiplier 1)", covers=1)
@@ -198,6 +209,7 @@ PROPERTY_ASSUMPTIONS["C04"] = [
 ]
 M("C04", "c04_index_cleanup", ["BlockRing::delete_block", "RingItem::delete_block"], "same as c03_m_blockring_delete: rejecting a block removes exactly its (id, hash) from the chain index, for any id", covers=2)
 M("C04", "c04_rejected_block_writes_nothing", ["Blockchain::add_block (async body, up to the fork-choice comparison)"], "every path that returns before the fork-choice step (about 10 of 400); block id/hash/parent, tip, genesis period, stored/loading flags symbolic; writes = BlockRing::add_block/on_chain_reorganization/delete_block, blocks.insert/remove", covers=1)
+M("C04", "c04_wind_failure_request", ["Blockchain::wind_chain (async body, one step)"], "candidate chains of 2..=3 blocks (thorough 4), failing block at every index that is not the first one wound; the unwind request must list exactly the blocks already wound", covers=1)
 M("C04", "c04_machine", ["Blockchain::validate", "Blockchain::wind_chain", "Blockchain::unwind_chain"], "see assumptions; one class per (|new|, |old|, validity pattern forced by the path)", covers=4)
 
 # ============================================================================== C16
